@@ -26,6 +26,8 @@ inductive Err where
   | nbOob
   /-- `eigenvectors().leftCols(target_dimension + skip)` with `target_dimension + 1 > N` -/
   | colsOob
+  /-- `solver.eigenvectors().rightCols(target_dimension)` of a `k × k` local eigenproblem with `target_dimension > k` -/
+  | localColsOob
   deriving Repr, DecidableEq
 
 /-- `KernelDistance::distance(l, r) = sqrt(κ(l,l) − 2 κ(l,r) + κ(r,r))` (`sqrtO` = libm's `sqrt`) -/
@@ -89,6 +91,19 @@ theorem nbOf_exact {K : Type} [LE K] [DecidableLE K] {δ : Nat → Nat → K} {g
     have := hl a
     rw [ha] at this
     exact List.mem_of_getElem? this
+
+/-- the local Gram matrix of `tangent_weight_matrix` is symmetric by construction (`gram(i,j) = gram(j,i) = kij`), whatever
+    the kernel callback returns -/
+theorem localGramSym_symm {K : Type} {N k : Nat} (κ : Mat N N K) (nb : Fin k → Fin N) (a b : Fin k) :
+    LocallyLinear.localGramSym κ nb a b = LocallyLinear.localGramSym κ nb b a := by
+  unfold LocallyLinear.localGramSym
+  by_cases h1 : a ≤ b <;> by_cases h2 : b ≤ a
+  · have : a = b := Fin.ext (by omega)
+    subst this
+    rfl
+  · simp [h1, h2]
+  · simp [h1, h2]
+  · omega
 
 section Weights
 variable {K : Type} [Field K] {k : Nat}
